@@ -156,6 +156,12 @@ class CGen:
         self.ops.append({"t": "m2s_direct", "targets": [u.encode().hex() for u in users], "payload": PAYLOADS[p].hex(), "script": [],
                          "conc": [("direct", [UNUM[u] for u in users], p + 1)], "direct": {"users": list(users), "payload": p}})
 
+    def bystander(self, k):
+        """a request that needs no channel lock and no modulator (CHANNELS) while other requests are suspended: it is answered
+        in this very step, whatever the others wait for"""
+        self.send(k, [self.channels(k)])
+        self.ops[-1]["expect_now"] = True
+
     def settle(self):
         self.ops.append({"t": "advance", "ms": 50, "conc": []})
 
@@ -186,6 +192,11 @@ class CGen:
             for k in sorted(self.live):
                 self.send(k, [self.bcast(k, ch)])
                 self.ops[-1]["probe"] = "publish"
+        # a full window: as many pipelined requests in ONE write as the connection may have in flight; every one is answered
+        # (the in-flight counter is back at zero whatever was interleaved before)
+        for k in sorted(self.live):
+            self.send(k, [self.channels(k) for _ in range(self.cfg.get("max_inflight", 10))])
+            self.ops[-1]["probe"] = "window"
         if self.live:
             k = max(self.live) if self.r.random() < 0.7 else self.r.choice(sorted(self.live))
             u = self.live[k]
@@ -427,6 +438,7 @@ def cleanup_family(r, thorough):
         n = g.park()
         g.hangup(a, [{"park": n}]) if r.random() < 0.5 else g.hangup(bb, [{"park": n}])
         who = "alice" if a not in g.live else "bob"
+        g.bystander(c)               # a clean-up suspended in the modulator holds nobody else up
         k2 = g.open(who)             # the name is free again: the old session's clean-up is still on its way
         other = [x for x in CHANS if x not in chs][0]
         g.send(k2, [g.join(k2, r.choice([other, chs[0], chs[1]]))])
@@ -572,6 +584,7 @@ def timeout_family(r, thorough):
         else:
             g.send(a, [g.bcast(a, ch)], [{"park": n1}])
         g.ops.append({"t": "advance", "ms": r.choice([1000, 3000]), "conc": []})
+        g.bystander(bb)
         k = r.choice([a, bb, c])
         g.send(k, [r.choice([g.join, g.leave, g.members])(k, ch)], [{"park": n2}])
         g.expire(r.choice([2500, 4500, 6000]))
@@ -625,6 +638,7 @@ def owner_leave_family(r, thorough):
         n1, n2 = g.park(), g.park()
         second = i % 2 == 0
         g.send(a, [g.leave(a, ch)], ["ok", {"park": n2}] if second else [{"park": n1}])
+        g.bystander(c)
         act = r.choice(["join", "leave", "bcast", "kick"])
         if act == "join":
             g.send(c, [g.join(c, ch)])
@@ -823,6 +837,7 @@ def monitor(case, obs):
         for k2 in op.get("hangups", []):
             end_session(k2, t)
         recv = {int(k): v for k, v in o["conns"].items()}
+        gone_before = set(gone)
         for k, v in sorted(recv.items()):
             for f in v["frames"]:
                 if "undecodable" in f:
@@ -894,6 +909,10 @@ def monitor(case, obs):
         was_parked = bool(o.get("parked"))
         k0 = op.get("k")
         fr = [f for f in recv.get(k0, {"frames": []})["frames"] if "undecodable" not in f] if k0 is not None else []
+        if op.get("expect_now") and k0 is not None and k0 not in gone:
+            rq = op["reqs"][0]
+            if not any(("undecodable" not in f) and fn(f) in ("CHANNELS_ACK", "ERROR") and fg(f, "id") == rq["id"] for f in fr):
+                viol.append(("C13", f"CHANNELS on connection {k0} (needs no channel lock, no modulator) was not answered while other requests are suspended: the worker or a lock every request needs is held up", t))
         if op.get("audit") == "channels":
             for f in fr:
                 if fn(f) == "CHANNELS_ACK":
@@ -933,6 +952,7 @@ def monitor(case, obs):
                 got = [f for f in recv.get(k2, {"frames": []})["frames"] if "undecodable" not in f and fn(f) == "MESSAGE" and fg(f, "channel").decode("latin1") == ch]
                 if acked and rl is not None and user[k2] in m and permits(rl, user[k2]) and user.get(k0) in m and not got:
                     viol.append(("C02", f"acknowledged BROADCAST on {ch} by {user.get(k0)}: member {user[k2]} (connection {k2}, listed by MEMBERS, admitted by the reported read list {rl}) received nothing", t))
+                    viol.append(("C03", f"delivery contradicts the reported read list of {ch} ({rl}): member {user[k2]} is admitted but the acknowledged BROADCAST did not reach it", t))
                 if got and user[k2] not in m:
                     viol.append(("C01", f"BROADCAST on {ch}: {user[k2]} (connection {k2}) received it although MEMBERS does not list that user", t))
                 if got and rl is not None and not permits(rl, user[k2]):
@@ -941,6 +961,16 @@ def monitor(case, obs):
                 viol.append(("C03", f"BROADCAST on {ch} by {user.get(k0)} acknowledged although the reported publish list {pl} does not admit that user", t))
             if acked and user.get(k0) not in m:
                 viol.append(("C04", f"BROADCAST on {ch} acknowledged for {user.get(k0)}, whom MEMBERS does not list", t))
+        if op.get("probe") == "window" and k0 not in gone_before:
+            ids = [rq["id"] for rq in op["reqs"]]
+            got = [fg(f, "id") for f in fr if fn(f) == "CHANNELS_ACK"]
+            missing = [i for i in ids if i not in got]
+            if missing or recv.get(k0, {}).get("closed") or any(fn(f) == "ERROR" for f in fr):
+                what = (f"a full window of {len(ids)} pipelined requests on connection {k0} (nothing else in flight) was not served: unanswered {missing[:4]}, "
+                        f"errors {[fg(f, 'reason') for f in fr if fn(f) == 'ERROR']}, closed={recv.get(k0, {}).get('closed')}: the in-flight accounting drifted")
+                viol.append(("C12", what, t))
+                viol.append(("C14", what, t))
+                viol.append(("C13", what, t))
         if op.get("probe") == "departure":
             k = op["k"]
             u = user.get(k)
